@@ -59,6 +59,123 @@ def instants(ctx: Ctx, imin: float, mmin: float, n: int, cst) -> list[float]:
     return sorted(pts)
 
 
+def system_level(ctx: Ctx) -> None:
+    """the property at the level where it is used: `orchestrator.should_run_atomic_service` and the runner's
+    `_check_atomic_services` on real backends under a controlled clock.
+    (a) churn: three runners poll every 5 s; one disappears, another one joins, so the NUMBER of active runners is the same while
+        the positions change: at every instant at most one runner is authorised and every live runner is once per cycle;
+    (b) a storage stall inside a check: the clock moves by 15 s during the runner's own heartbeat write near the end of its window;
+        a runner that executes the services does so at the time the check RETURNS - nobody else may execute then."""
+    import importlib
+    import threading
+
+    from harness.apps import VirtualClock, make_app, rctx
+
+    clock = VirtualClock(start_us=(1_700_000_100 - 3) * 1_000_000).install()      # 3 s before a multiple of the 300 s cycle
+    rb = importlib.import_module("pynenc.runner.base_runner")
+    real_time_mod = rb.time
+
+    class _T:
+        def time(self_inner) -> float:  # noqa: N805
+            return clock.time()
+
+        def sleep(self_inner, s: float) -> None:  # noqa: N805
+            clock.advance(int(s * 1e6))
+
+        def __getattr__(self_inner, n):  # noqa: N805
+            return getattr(real_time_mod, n)
+
+    rb.time = _T()
+    try:
+        for kind in ("mem", "sqlite"):
+            # ---- (a) churn
+            app = make_app(kind, ctx.tmp, app_id=f"c12sys{kind}", atomic_service_interval_minutes=5.0, atomic_service_spread_margin_minutes=0.1,
+                           runner_considered_dead_after_minutes=1.0, atomic_service_check_interval_minutes=0.0)
+            o = app.orchestrator
+            live = ["rA", "rB", "rC"]
+            # membership changes happen BETWEEN polling instants (a runner's first heartbeat precedes its first check by a moment):
+            # within one instant every poller sees the same set of runners
+            clock.advance((297 - clock.us // 1_000_000 % 300) % 300 * 1_000_000)       # 3 s before a cycle boundary
+            for r in live:
+                o.register_runner_heartbeats([r], can_run_atomic_service=True)
+                clock.advance(1_000_000)                                                # polls start at the boundary
+            seen: dict[str, set[int]] = {}
+            worst = None
+            for step in range(0, 4 * 60 + 30):           # 4.5 cycles of 5-second polls
+                t = step * 5
+                if t == 610:
+                    live = ["rB", "rC"]                   # rA goes silent ...
+                if t == 690:
+                    clock.advance(-2_000_000)
+                    o.register_runner_heartbeats(["rD"], can_run_atomic_service=True)
+                    clock.advance(2_000_000)
+                    live = ["rB", "rC", "rD"]             # ... is forgotten after a minute, and rD joins: three runners again
+                auth = [r for r in live if o.should_run_atomic_service(rctx(r))]
+                ctx.count()
+                for r in auth:
+                    seen.setdefault(r, set()).add(t // 300)
+                if len(auth) > 1 and worst is None:
+                    worst = (t, auth, list(live))
+                clock.advance(5_000_000)
+            ctx.distinct((kind, "churn", worst is None))
+            if worst:
+                ctx.report(f"two-authorised[{kind}]:runner-churn", f"[{kind}] runners {worst[2]} polling every 5 s (rA silent from t=610 s, rD joins at t=690 s; cycle 300 s, margin 6 s): at t={worst[0]} s "
+                                                                 f"should_run_atomic_service authorises {worst[1]} at the same instant", {"kind": "system-churn", "backend": kind, "t": worst[0], "authorised": worst[1]})
+            for r, cycles in (("rB", {0, 1, 3}), ("rC", {0, 1, 3}), ("rD", {3})):
+                if not cycles <= seen.get(r, set()):
+                    ctx.report(f"runner-without-window[{kind}]:runner-churn", f"[{kind}] runner {r} polled every 5 s but was not authorised in cycle(s) {sorted(cycles - seen.get(r, set()))} (authorised in {sorted(seen.get(r, set()))})",
+                               {"kind": "system-churn", "backend": kind, "runner": r})
+            # ---- (b) stall inside the check
+            app2 = make_app(kind, ctx.tmp, app_id=f"c12stall{kind}", runner_cls="ThreadRunner", atomic_service_interval_minutes=5.0,
+                            atomic_service_spread_margin_minutes=0.1, atomic_service_check_interval_minutes=0.0)
+            r1 = app2.runner
+            r2 = type(r1)(app2)
+            cur = {"r": None}
+            executed: list[tuple[str, int]] = []
+            app2.trigger.trigger_loop_iteration = lambda: executed.append((cur["r"], clock.us // 1_000_000 % 300))  # type: ignore[method-assign]
+            o2 = app2.orchestrator
+            real_hb = o2.register_runner_heartbeats
+            stall = {"for": None}
+
+            def hb(runner_ids, *a, **k):  # type: ignore[no-untyped-def]
+                out = real_hb(runner_ids, *a, **k)
+                if stall["for"] is not None and stall["for"] in runner_ids:
+                    stall["for"] = None
+                    clock.advance(15_000_000)         # the write took 15 s (a locked database, a slow network)
+                return out
+
+            o2.register_runner_heartbeats = hb  # type: ignore[method-assign]
+            base = clock.us // 1_000_000 % 300
+            clock.advance((300 - base) * 1_000_000 + 10_000_000)       # second 10 of a cycle
+            for r, name in ((r1, "r1"), (r2, "r2")):
+                cur["r"] = name
+                r._check_atomic_services()
+            first = [n for n, _ in executed]
+            order = ("r1", "r2") if first == ["r1"] else ("r2", "r1") if first == ["r2"] else None
+            if order is None:
+                ctx.obligation(f"system level (b) set-up [{kind}]: exactly one of two runners executes at second 10 of the cycle", False, f"executed {executed}")
+                continue
+            a, b = (r1, r2) if order[0] == "r1" else (r2, r1)
+            clock.advance(130_000_000)                                    # second 140: 4 s before the end of the first window [0,144)
+            executed.clear()
+            stall["for"] = a.runner_context.runner_id
+            cur["r"] = "first-window-runner"
+            a._check_atomic_services()                                    # returns at second 155
+            cur["r"] = "second-window-runner"
+            b._check_atomic_services()                                    # second 155: inside the second window [150,294)
+            ctx.count()
+            ctx.distinct((kind, "stall", len(executed)))
+            if len({n for n, _ in executed}) > 1:
+                ctx.report(f"two-executing[{kind}]:stall-inside-check", f"[{kind}] two runners, cycle 300 s, margin 6 s: the first-window runner checks at second 140 and its heartbeat write takes 15 s; "
+                                                                        f"at second 155 BOTH runners execute the global services: {executed}", {"kind": "system-stall", "backend": kind, "executed": executed})
+            if ("second-window-runner", 155) not in executed:
+                ctx.obligation(f"system level (b) [{kind}]: the second-window runner executes at second 155", False, f"executed {executed}")
+    finally:
+        rb.time = real_time_mod
+        clock.uninstall()
+    _ = threading
+
+
 def run(ctx: Ctx) -> None:
     from pynenc.orchestrator import atomic_service as A
 
@@ -132,6 +249,7 @@ def run(ctx: Ctx) -> None:
                 impl.append("true" if p in auth else "false")
     outs = drv.ask_many(lines)
     drv.close()
+    system_level(ctx)
     first = None
     for ln, i, m in zip(lines, impl, outs):
         if i != m:
